@@ -586,7 +586,7 @@ impl PageLoader {
         let bucket = loop {
             match load.probe_sequence.next(&self.meta_map) {
                 ProbeResult::Tombstone(_) => continue,
-                ProbeResult::Empty(_) => return false,
+                ProbeResult::Empty(_) | ProbeResult::Exhausted => return false,
                 ProbeResult::PossibleHit(bucket) => break BucketIndex(bucket),
             }
         };
@@ -682,6 +682,8 @@ fn allocate_bucket(
         }
         match probe_seq.next(&meta_map) {
             ProbeResult::PossibleHit(_) => continue,
+            // Every reachable bucket is occupied by another page.
+            ProbeResult::Exhausted => return None,
             ProbeResult::Tombstone(bucket) | ProbeResult::Empty(bucket) => {
                 meta_map.set_full(bucket as usize, probe_seq.hash);
                 return Some(BucketIndex(bucket));
@@ -711,6 +713,8 @@ enum ProbeResult {
     PossibleHit(u64),
     Empty(u64),
     Tombstone(u64),
+    /// The probe sequence has gone around the whole table without finding anything.
+    Exhausted,
 }
 
 impl ProbeSequence {
@@ -726,6 +730,13 @@ impl ProbeSequence {
     // probe until there is a possible hit or an empty bucket is found
     fn next(&mut self, meta_map: &MetaMap) -> ProbeResult {
         loop {
+            // The triangular sequence modulo the table length is periodic with a period of at
+            // most twice the length. Past that point every reachable bucket has been visited:
+            // stop instead of spinning forever on a table without empty buckets.
+            if self.step > 2 * meta_map.len() as u64 {
+                return ProbeResult::Exhausted;
+            }
+
             // Triangular probing
             self.bucket += self.step;
             self.step += 1;
